@@ -249,7 +249,7 @@ mod imp {
     }
 
     pub fn sequences(ctx: &Ctx, acc: &mut Acc) -> (u64, u64, u64, serde_json::Value) {
-        let depth = ctx.tier.pick(7, 9);
+        let depth = ctx.tier.pick(8, 9);
         let ops = all_ops();
         // distribute the DFS by its first three operations
         let mut prefixes: Vec<Vec<Op>> = vec![vec![]];
@@ -300,7 +300,7 @@ mod imp {
         });
         acc.merge(a1);
         // the 3-operation prefixes themselves were visited while building the list
-        let nrand = ctx.tier.pick(20_000u64, 200_000);
+        let nrand = ctx.tier.pick(100_000u64, 400_000);
         let chunks: Vec<u64> = (0..64).collect();
         let a2 = par_run(&chunks, false, None, |_, &c, acc| {
             let mut rng = Rng::new(ctx.seed ^ (c + 1).wrapping_mul(0xC20));
@@ -342,7 +342,7 @@ pub fn run(ctx: &Ctx) -> Outcome {
     // conditions, possessive) around every small filler, plus random trees
     let mut g = gen::Gen::new(true);
     let mut patterns = gen::products(&g.upto(ctx.tier.pick(2, 3)));
-    patterns.extend(gen::random_patterns(ctx.seed ^ 20, ctx.tier.pick(3_000, 40_000), true, 6, 14));
+    patterns.extend(gen::random_patterns(ctx.seed ^ 20, ctx.tier.pick(20_000, 100_000), true, 6, 14));
     let texts = spaces::texts_c01(3);
     let cfg = crate::sweep::SweepCfg { prop: "C20", backtrack_limit: Some(20_000), step_cap: Some(5_000_000), shadow: true };
     let a3 = crate::sweep::sweep(&cfg, &patterns, |c, acc| {
